@@ -3,7 +3,7 @@
    repaired gene_cmp); the pinned gene_cmp is not one. *)
 From Coq Require Import ZArith List Bool Arith Lia ZifyBool.
 Local Ltac c02_scan0 := idtac. (* separates the Require lines for the dependency scanner of lib/vv.py *)
-From VV Require Import Base.F64 Fitness.F64Order Mep.Genome Mep.Draws Mep.OpsDefs Mep.OpsProofs.
+From VV Require Import Base.F64 Mep.Genome Mep.Draws Mep.OpsDefs Mep.OpsProofs.
 Local Ltac c02_scan1 := idtac.
 Import ListNotations.
 Local Open Scope nat_scope.
@@ -323,67 +323,99 @@ Proof.
     intros H. apply andb_true_iff in H. destruct H as [H1 H2]. apply negb_true_iff in H1, H2. lia.
 Qed.
 
-(* "neither is less" on numbers is equality of the order keys (Fitness/F64Order.v) *)
-Lemma par_incomp_key x y : nonan x -> nonan y -> (par_incomp x y = true <-> key x = key y).
+(* ------------------------------------------ the current comparator (memcmp) *)
+Lemma bytes_ltb_irrefl a : bytes_ltb a a = false.
+Proof. induction a as [|x a IH]; cbn [bytes_ltb]; [reflexivity|]. rewrite Z.ltb_irrefl. exact IH. Qed.
+
+Lemma bytes_incomp_eq : forall a b, length a = length b ->
+  bytes_ltb a b = false -> bytes_ltb b a = false -> a = b.
 Proof.
-  intros Hx Hy. unfold par_incomp. rewrite (ltb_key x y Hx Hy), (ltb_key y x Hy Hx).
-  rewrite andb_true_iff, !negb_true_iff, !Z.ltb_ge. lia.
+  induction a as [|x a IH]; intros [|y b] Hl H1 H2; cbn [bytes_ltb length] in *; try discriminate; [reflexivity|].
+  destruct (Z.ltb x y) eqn:E1; [discriminate|]. destruct (Z.ltb y x) eqn:E2; [discriminate|].
+  assert (x = y) by lia. subst. f_equal. apply IH; [lia|assumption|assumption].
 Qed.
 
-(* the keys of cse(): symbols of the symbol set, constants that are numbers *)
-Definition K0n (ss : sset) : sym -> f64 -> Prop :=
-  fun s p => sym_in_b ss s = true /\ (s_parametric s = true -> nonan p).
+Lemma par_bytes_length p : length (par_bytes p) = 8.
+Proof. reflexivity. Qed.
+
+Lemma gene_equiv_mem_char a b :
+  (s_opcode (g_sym a) = s_opcode (g_sym b) ->
+   s_argcats (g_sym a) = s_argcats (g_sym b) /\ s_parametric (g_sym a) = s_parametric (g_sym b)) ->
+  (gene_equiv gene_cmp_mem a b = true <->
+   s_opcode (g_sym a) = s_opcode (g_sym b) /\
+   (if is_terminal (g_sym a)
+    then (if s_parametric (g_sym a) then par_bytes (g_par a) = par_bytes (g_par b) else True)
+    else g_args a = g_args b)).
+Proof.
+  intros Hcoh. unfold gene_equiv, gene_cmp_mem.
+  destruct (Z.eqb_spec (s_opcode (g_sym a)) (s_opcode (g_sym b))) as [Eop|Nop].
+  - destruct (Hcoh Eop) as [Hac Hpar].
+    replace (s_opcode (g_sym b) =? s_opcode (g_sym a))%Z with true by (symmetry; apply Z.eqb_eq; congruence).
+    cbn [negb]. unfold is_terminal. rewrite <- Hac, <- Hpar.
+    destruct (s_argcats (g_sym a)) eqn:Eac.
+    + destruct (s_parametric (g_sym a)).
+      * split.
+        -- intros H. apply andb_true_iff in H. destruct H as [H1 H2]. apply negb_true_iff in H1, H2.
+           split; [exact Eop|]. apply bytes_incomp_eq; [rewrite !par_bytes_length; reflexivity|assumption|assumption].
+        -- intros [_ ->]. rewrite bytes_ltb_irrefl. reflexivity.
+      * cbn. tauto.
+    + split.
+      * intros H. apply andb_true_iff in H. destruct H as [H1 H2]. apply negb_true_iff in H1, H2.
+        split; [exact Eop|]. apply lex_incomp_eq; assumption.
+      * intros [_ ->]. rewrite lex_ltb_irrefl. reflexivity.
+  - replace (s_opcode (g_sym b) =? s_opcode (g_sym a))%Z with false
+      by (symmetry; apply Z.eqb_neq; congruence).
+    cbn [negb]. split; [|intros [H _]; contradiction].
+    intros H. apply andb_true_iff in H. destruct H as [H1 H2]. apply negb_true_iff in H1, H2. lia.
+Qed.
+
+(* the keys of cse(): genes whose symbol belongs to the symbol set (any parameter, NaN included) *)
+Definition K0m (ss : sset) : sym -> f64 -> Prop := fun s _ => sym_in_b ss s = true.
 
 Section Repaired.
 Variable ss : sset.
 Hypothesis Hss : wf_sset_b ss = true.
 
-Lemma K_coherent a b : K (K0n ss) a -> K (K0n ss) b -> s_opcode (g_sym a) = s_opcode (g_sym b) ->
+Lemma K_coherent a b : K (K0m ss) a -> K (K0m ss) b -> s_opcode (g_sym a) = s_opcode (g_sym b) ->
   s_argcats (g_sym a) = s_argcats (g_sym b) /\ s_parametric (g_sym a) = s_parametric (g_sym b).
-Proof. intros [Ha _] [Hb _] Hop. eapply sym_in_coherent; eauto. Qed.
+Proof. intros Ha Hb Hop. eapply sym_in_coherent; eauto. Qed.
 
-(* on such keys the repaired gene_cmp induces an equivalence: it is a strict weak ordering *)
-Lemma gene_cmp_equiv_refl k : K (K0n ss) k -> gene_equiv gene_cmp k k = true.
+(* on such keys the current gene_cmp induces an equivalence (equal opcode and equal bytes of the
+   parameter / equal arguments): it is a strict weak ordering, for every parameter *)
+Lemma gene_cmp_equiv_refl k : K (K0m ss) k -> gene_equiv gene_cmp_mem k k = true.
 Proof.
-  intros Hk. apply gene_equiv_char; [intros _; auto|]. split; [reflexivity|].
-  destruct (is_terminal (g_sym k)); [|reflexivity].
-  destruct (s_parametric (g_sym k)) eqn:Ep; [|exact I].
-  apply par_incomp_key; [apply Hk; exact Ep|apply Hk; exact Ep|reflexivity].
+  intros Hk. apply gene_equiv_mem_char; [intros _; auto|]. split; [reflexivity|].
+  destruct (is_terminal (g_sym k)); [|reflexivity]. destruct (s_parametric (g_sym k)); [reflexivity|exact I].
 Qed.
 
-Lemma gene_cmp_equiv_trans a b c : K (K0n ss) a -> K (K0n ss) b -> K (K0n ss) c ->
-  gene_equiv gene_cmp a b = true -> gene_equiv gene_cmp b c = true -> gene_equiv gene_cmp a c = true.
+Lemma gene_cmp_equiv_trans a b c : K (K0m ss) a -> K (K0m ss) b -> K (K0m ss) c ->
+  gene_equiv gene_cmp_mem a b = true -> gene_equiv gene_cmp_mem b c = true -> gene_equiv gene_cmp_mem a c = true.
 Proof.
   intros Ha Hb Hc Hab Hbc.
-  apply gene_equiv_char in Hab; [|apply K_coherent; assumption].
-  apply gene_equiv_char in Hbc; [|apply K_coherent; assumption].
+  apply gene_equiv_mem_char in Hab; [|apply K_coherent; assumption].
+  apply gene_equiv_mem_char in Hbc; [|apply K_coherent; assumption].
   destruct Hab as [O1 H1]. destruct Hbc as [O2 H2].
-  apply gene_equiv_char; [apply K_coherent; assumption|]. split; [congruence|].
-  destruct (K_coherent a b Ha Hb O1) as [Cac Cpar]. destruct (K_coherent b c Hb Hc O2) as [_ Cp2].
+  apply gene_equiv_mem_char; [apply K_coherent; assumption|]. split; [congruence|].
+  destruct (K_coherent a b Ha Hb O1) as [Cac Cpar].
   unfold is_terminal in *. rewrite <- Cac, <- Cpar in H2.
   destruct (s_argcats (g_sym a)).
-  - destruct (s_parametric (g_sym a)) eqn:Ep; [|exact I].
-    assert (Na : nonan (g_par a)) by (apply Ha; exact Ep).
-    assert (Nb : nonan (g_par b)) by (apply Hb; congruence).
-    assert (Nc : nonan (g_par c)) by (apply Hc; congruence).
-    apply par_incomp_key; auto. apply par_incomp_key in H1; auto. apply par_incomp_key in H2; auto. congruence.
+  - destruct (s_parametric (g_sym a)); [congruence|exact I].
   - congruence.
 Qed.
 
-(* irreflexivity and transitivity of the order itself, for the record *)
-Lemma gene_cmp_irrefl k : K (K0n ss) k -> gene_cmp k k = false.
+Lemma gene_cmp_irrefl k : K (K0m ss) k -> gene_cmp_mem k k = false.
 Proof.
   intros Hk. pose proof (gene_cmp_equiv_refl k Hk) as H. unfold gene_equiv in H.
   apply andb_true_iff in H. destruct H as [H _]. apply negb_true_iff in H. exact H.
 Qed.
 
 Lemma cells_are_keys patch g : ind_ok_b ss patch g = true ->
-  forall r c ge, r < rows g -> c < cats g -> cell g r c = Some ge -> K (K0n ss) ge.
+  forall r c ge, r < rows g -> c < cats g -> cell g r c = Some ge -> K (K0m ss) ge.
 Proof.
-  intros Hg r c ge Hr Hc Hcell. unfold K, K0n.
+  intros Hg r c ge Hr Hc Hcell. unfold K, K0m.
   pose proof (proj1 (ind_ok_iff _ _ _) Hg) as (_ & _ & P3 & _).
   destruct (P3 r c Hr Hc) as (ge0 & Hge0 & Hok). rewrite Hcell in Hge0. inversion Hge0. subst ge0.
-  apply gene_ok_inv in Hok. destruct Hok as (S1 & _ & _ & _ & _ & _ & S7). split; [exact S1|exact S7].
+  apply gene_ok_inv in Hok. apply Hok.
 Qed.
 
 (* cse() of the repaired tree keeps individuals well-formed ... *)
@@ -392,9 +424,9 @@ Lemma cse_wf patch i i' :
   ind_ok_b ss patch (i_gen i') = true /\ i_age i' = i_age i /\ i_xt i' = i_xt i.
 Proof.
   intros Hg H. unfold cse in H.
-  destruct (cse_genome gene_cmp (i_gen i)) as [g'|] eqn:E; [|discriminate].
+  destruct (cse_genome gene_cmp_mem (i_gen i)) as [g'|] eqn:E; [|discriminate].
   inversion H. subst. cbn [with_gen i_gen i_age i_xt]. split; [|auto].
-  eapply (cse_genome_wf gene_cmp (K0n ss) gene_cmp_equiv_refl gene_cmp_equiv_trans ss Hss patch
+  eapply (cse_genome_wf gene_cmp_mem (K0m ss) gene_cmp_equiv_refl gene_cmp_equiv_trans ss Hss patch
             (rows (i_gen i)) (cats (i_gen i))); [exact Hg|reflexivity|reflexivity| |exact E].
   apply (cells_are_keys patch). exact Hg.
 Qed.
@@ -403,21 +435,31 @@ Qed.
 Lemma cse_total patch i : ind_ok_b ss patch (i_gen i) = true -> exists i', cse i = Some i'.
 Proof.
   intros Hg. unfold cse.
-  destruct (cse_genome_total gene_cmp (K0n ss) gene_cmp_equiv_refl gene_cmp_equiv_trans ss Hss patch
+  destruct (cse_genome_total gene_cmp_mem (K0m ss) gene_cmp_equiv_refl gene_cmp_equiv_trans ss Hss patch
               (rows (i_gen i)) (cats (i_gen i)) (i_gen i) Hg eq_refl eq_refl (cells_are_keys patch _ Hg)) as [g' ->].
   eauto.
 Qed.
 End Repaired.
 
 Lemma gene_cmp_swo ss : wf_sset_b ss = true ->
-  (forall k, K (K0n ss) k -> gene_cmp k k = false) /\
-  (forall a b c, K (K0n ss) a -> K (K0n ss) b -> K (K0n ss) c ->
-     gene_equiv gene_cmp a b = true -> gene_equiv gene_cmp b c = true -> gene_equiv gene_cmp a c = true).
+  (forall k, K (K0m ss) k -> gene_cmp_mem k k = false) /\
+  (forall a b c, K (K0m ss) a -> K (K0m ss) b -> K (K0m ss) c ->
+     gene_equiv gene_cmp_mem a b = true -> gene_equiv gene_cmp_mem b c = true -> gene_equiv gene_cmp_mem a c = true).
 Proof.
   intros H. split.
   - intros k Hk. eapply gene_cmp_irrefl. exact Hk.
   - intros a b c. eapply gene_cmp_equiv_trans. exact H.
 Qed.
+
+(* the constants +0.0 and -0.0 are different keys for the current comparator, the same key for
+   operator< (the finding fixed by "i_mep::cse() merges the constants +0.0 and -0.0") *)
+Definition zero_witness_sym : sym :=
+  {| s_opcode := 9; s_cat := 0; s_argcats := []; s_parametric := true; s_strat := Interp.Strategy.Ret Values.Stuck |}.
+Definition pz : gene := {| g_sym := zero_witness_sym; g_par := F64.of_bits 0; g_args := [] |}.
+Definition nz : gene := {| g_sym := zero_witness_sym; g_par := F64.of_bits 0x8000000000000000; g_args := [] |}.
+Lemma signed_zeros_are_distinct_keys :
+  gene_equiv gene_cmp_mem pz nz = false /\ gene_equiv gene_cmp pz nz = true.
+Proof. vm_compute. split; reflexivity. Qed.
 
 (* the pinned comparator is not a strict weak ordering: two genes with the
    same function symbol, arguments [1;5] and [2;3], are each "less" than the
